@@ -47,17 +47,18 @@ class _Src(ItemSource):
 
 
 class _Task(ItemTask):
-    def __init__(self, name, log, latency, fail_item, fail_delay=0):
+    def __init__(self, name, log, latency, fail_item, fail_delay=0, stagger=0):
         self.name = name
         self.log = log
         self.latency = latency
         self.fail_item = fail_item
         self.fail_delay = fail_delay
+        self.stagger = stagger
 
     @asyncio.coroutine
     def process(self, item):
         self.log.append((self.name, item, 's'))
-        for _ in range(self.latency):
+        for _ in range(self.latency + (self.stagger if item % 2 else 0)):      # staggered latencies: odd items take longer
             yield from asyncio.sleep(0)
         if item == self.fail_item:
             for _ in range(self.fail_delay):
@@ -79,7 +80,8 @@ def _world(chooser, nitems, ntasks, conc, latency, ev_kind, ev_step, ev_arg, ev2
     async def main():
         src = _Src(nitems, fail_call, log, ev_arg if ev_kind == 0 else 0)     # without an event, ev_arg is the latency of the source
         fail_delay = ev2_step if (ev_kind in (1, 3) and ev2_step > 0) else 0      # (ev2_step is otherwise unused for a stop / a pause without follow-up)
-        tasks = [_Task('t%d' % i, log, latency, fail_item if i == fail_task else -1, fail_delay) for i in range(ntasks)]
+        stagger = ev2_step if (ev_kind == 1 and fail_task < 0 and ev2_step > 0) else 0      # (stop without failing task: ev2_step = extra latency of odd items)
+        tasks = [_Task('t%d' % i, log, latency, fail_item if i == fail_task else -1, fail_delay, stagger) for i in range(ntasks)]
         pipe = Pipeline(src, tasks)
         pipe.concurrency = conc
         st['pipe'] = pipe
@@ -473,6 +475,8 @@ HARNESSES = [
            'pre': ['ev_step <= 25 and fail_item >= 1 and 0 <= ev2_step <= 6']},
           {'tag': 'stop_then_fail', 'fix': _fx(nitems=3, ntasks=1, conc=2, latency=1, ev_kind=1, ev_arg=0, ev2_step=0, fail_task=0, fail_call=-1, p2=81, a2=1, a1=1),
            'pre': ['ev_step <= 25 and p1 <= 25 and fail_item >= 1']},
+          {'tag': 'stop_staggered', 'fix': _fx(nitems=3, ntasks=1, conc=2, latency=1, ev_kind=1, ev_arg=0, p2=81, a2=1, a1=1, **_NOFAIL),
+           'pre': ['ev_step <= 20 and p1 <= 12 and 1 <= ev2_step <= 4']},
           {'tag': 'slow_source', 'fix': _fx(ntasks=1, ev_kind=0, ev_step=0, ev2_step=0, p2=81, a2=1, a1=1, **_NOFAIL),
            'pre': ['1 <= ev_arg <= 3 and 1 <= nitems <= 2 and 1 <= conc <= 2 and p1 <= 20']},
           {'tag': 'start_paused', 'fix': _fx(nitems=2, ntasks=1, conc=0, latency=1, ev_kind=2, p2=81, a2=1, a1=1, p1=0, **_NOFAIL),
